@@ -20,6 +20,8 @@ var verifC04Programs = [...]string{
 	"echo \"\\$a\" \"a\\\\b\" \"\\\"q\\\"\" \"plain\" \"it's\" \"\\` \\$\" \"a\\\\$s\" \"$s\"",
 	`echo $"a\\b" $"\$x" $"q\"q" $"plain"`,
 	`a=(1 2 3); a[($x)]=9; echo ${a[($x)]} ${a[(($y))]} ${a[$x]}`,
+	`[[ ab != "$s" ]]; echo $?; [[ ab == "$s" ]]; echo $?; [[ ab = "$s" ]]; echo $?; [[ ! ab == "$s" ]]; echo $?; [[ ! ab != "$s" ]]; echo $?; [[ ab =~ "$s" ]]; echo $?; [[ ! ab =~ "$s" ]]; echo $?`,
+	`[[ "$s" != ab ]]; echo $?; [[ "$s" < "b" ]]; echo $?; [[ a > "$s" ]]; echo $?; [[ "$x" -lt "$y" ]]; echo $?; [[ "$x" -ne "$y" ]]; echo $?; [[ -n "$s" && "$s" != "a*" ]]; echo $?; [[ -z "$s" || ab == "$s"* ]]; echo $?`,
 	`declare -A m=([x]=lit [1]=one); x=1; echo ${m[x]} ${m[$x]} $(( m[x] )) $(( ${m[x]} + 0 ))` + "\n" + `[[ "$s" =~ "$s" ]]; echo $?; [[ "$s" == $s* ]]; echo $?`,
 }
 
